@@ -184,6 +184,12 @@ def _from_call(fn, b, t, path, seen, depth):
         return []                  # from_residual only ever builds the failure variant
     if n in _UNWRAPS and is_place(t['args'][0]):
         return _from_operand(fn, b, i, t['args'][0], _UNWRAPS[n] + path, seen, depth)
+    if n in ('std::option::Option::<T>::or', 'std::result::Result::<T, E>::or') and len(t['args']) == 2:
+        # a.or(b): the value (and its success payload) is a's or b's
+        out = []
+        for a in t['args']:
+            out += _from_operand(fn, b, i, a, path, seen, depth) if is_place(a) or a['k'] == 'const' else [('unknown', 'operand of or')]
+        return out
     if n in _PASS and is_place(t['args'][0]) and (not path or path[0] in (('down', 'Ok'), ('down', 'Some'))):
         # the success payload passes through unchanged
         if n.endswith('ok_or') or n.endswith('ok_or_else'):
